@@ -267,6 +267,18 @@ fn gen_typed_value(rng: &mut Rng, arg: &str, depth: usize) -> String {
     }
 }
 
+// ------------------------------------------------------------------ operation names
+
+/// Operation names as users write them: camelCase, snake_case, a leading underscore, digits after the first
+/// character, single letters, PascalCase.  (`capitalizeOperationNames`, on by default, changes the *TypeScript
+/// identifiers* generated for most of these; the embedded document must keep the name as written.)
+const OP_NAMES: &[&str] = &["getUser", "user_by_id", "q", "_private", "x1y2", "fooQuery", "aB", "list_all_2", "i", "mutationLike",
+    "GetUser", "Op", "MyQuery", "A", "__x", "a_", "camelCaseWithDigits9"];
+fn op_name(rng: &mut Rng, i: usize, unique_suffix: bool) -> String {
+    let base = *rng.pick(OP_NAMES);
+    if unique_suffix { format!("{base}{i}") } else { base.to_string() }
+}
+
 // ------------------------------------------------------------------ synthetic documents over SCHEMA
 
 struct SynCfg {
@@ -388,7 +400,7 @@ fn gen_syn_doc(rng: &mut Rng, cfg: &SynCfg) -> String {
             continue;
         }
         head.push_str(kind);
-        if !anon { let _ = write!(head, " Op{i}"); }
+        if !anon { let _ = write!(head, " {}", op_name(rng, i, n_ops > 1)); }
         if !g.vars.is_empty() {
             let vs: Vec<String> = g.vars.iter().map(|(n, t, d, ds)| format!("${n}: {t}{}{}", d.as_ref().map(|d| format!(" = {d}")).unwrap_or_default(), ds.iter().map(|d| format!(" {d}")).collect::<String>())).collect();
             let _ = write!(head, "({})", vs.join(", "));
@@ -425,7 +437,7 @@ fn exhaustive_graphs(n: usize) -> Vec<String> {
             b.push('}');
             b
         };
-        let _ = writeln!(s, "query Q {}", body(c % subsets));
+        let _ = writeln!(s, "query {} {}", ["Q", "getQ", "q_1", "_q"][code % 4], body(c % subsets));
         c /= subsets;
         for i in 0..n {
             let _ = writeln!(s, "fragment F{i} on Query {}", body(c % subsets));
@@ -556,6 +568,12 @@ fn js_text_chunks(js: &str) -> Vec<String> {
 }
 
 impl<'a> Ctx<'a> {
+    /// at most 3 reports per kind of directly observed failure (the rest is counted)
+    fn direct_failure(&mut self, v: Value) {
+        let kind: String = v["what"].as_str().unwrap_or("").chars().take(48).collect();
+        let seen = self.direct_failures.iter().filter(|x| x["what"].as_str().unwrap_or("").starts_with(&kind)).count();
+        if seen < 3 { self.direct_failures.push(v); } else { self.bump("direct_failures_not_listed"); }
+    }
     fn bump(&mut self, k: &str) { *self.stats.entry(k.to_string()).or_insert(0) += 1; }
     fn add(&mut self, k: &str, n: u64) { *self.stats.entry(k.to_string()).or_insert(0) += n; }
 
@@ -576,18 +594,35 @@ impl<'a> Ctx<'a> {
         match (&js_ops, &loader) {
             (Ok(ops), Ok(text)) => {
                 if &ops.concat() != text {
-                    self.direct_failures.push(json!({"what": "graphql-loader print_js text differs from the chunks print_js_for_operation_document writes", "classes": [], "document": text}));
+                    self.direct_failure(json!({"what": "graphql-loader print_js text differs from the chunks print_js_for_operation_document writes", "classes": [], "document": text}));
                 }
-                // also: with default options (CLI's JS output) the JSON chunks are the same
-                if let Ok(ops2) = run_js(doc, OperationJSPrinterOptions::default()) {
-                    if json_chunks(&ops2) != json_chunks(ops) {
-                        self.direct_failures.push(json!({"what": "runtime JSON depends on printer options", "classes": [], "document": text}));
+                // the embedded documents do not depend on the printer options: default options (CLI), and every
+                // combination of capitalizeOperationNames / export style / variable suffixes give the same chunks
+                let mut variants = vec![OperationJSPrinterOptions::default()];
+                for (cap, named, sfx) in [(false, false, "Doc"), (true, true, ""), (false, true, "_q"), (true, false, "Operation")] {
+                    let mut o = OperationJSPrinterOptions::default();
+                    o.base_options.capitalize_operation_names = cap;
+                    o.base_options.named_export_for_operation = named;
+                    o.base_options.default_export_for_operation = !named;
+                    o.base_options.query_variable_suffix = sfx.to_string();
+                    o.base_options.mutation_variable_suffix = format!("{sfx}M");
+                    o.base_options.subscription_variable_suffix = format!("{sfx}S");
+                    o.base_options.fragment_variable_suffix = sfx.to_string();
+                    variants.push(o);
+                }
+                for o in variants {
+                    let descr = format!("capitalize={} named_export={} query_suffix={:?}", o.base_options.capitalize_operation_names, o.base_options.named_export_for_operation, o.base_options.query_variable_suffix);
+                    if let Ok(ops2) = run_js(doc, o) {
+                        if json_chunks(&ops2) != json_chunks(ops) {
+                            self.direct_failure(json!({"what": format!("the embedded runtime documents depend on printer options ({descr} differs from the default configuration)"), "classes": [], "document": text}));
+                            break;
+                        }
                     }
                 }
                 self.bump("loader_text_checked");
             }
             (Err(a), Err(b)) if a == b => {}
-            _ => self.direct_failures.push(json!({"what": "graphql-loader print_js and print_js_for_operation_document differ in panicking", "classes": [], "document": text})),
+            _ => self.direct_failure(json!({"what": "graphql-loader print_js and print_js_for_operation_document differ in panicking", "classes": [], "document": text})),
         }
         // 2. TS printer in standalone mode (needs a schema and a document the type printer can handle).
         // The type printer recurses without a visited set: on a document with a fragment cycle it overflows the
@@ -604,6 +639,19 @@ impl<'a> Ctx<'a> {
                     print_types_for_operation_document(opts, s, doc, &mut rec);
                     json_chunks(&rec.0)
                 }));
+                if let Ok(c) = &r {
+                    let r2 = catch(AssertUnwindSafe(|| {
+                        let mut rec = Rec::default();
+                        let mut opts = OperationTypePrinterOptions { print_values: true, ..OperationTypePrinterOptions::default() };
+                        opts.base_options.capitalize_operation_names = false;
+                        opts.base_options.query_variable_suffix = "Doc".to_string();
+                        print_types_for_operation_document(opts, s, doc, &mut rec);
+                        json_chunks(&rec.0)
+                    }));
+                    if let Ok(c2) = r2 { if &c2 != c {
+                        self.direct_failure(json!({"what": "standalone-TS mode: the embedded runtime documents depend on capitalizeOperationNames / variable suffixes", "classes": [], "document": text}));
+                    } }
+                }
                 match r {
                     Ok(c) => { self.bump("ts_mode_run"); Some(Ok(c)) }
                     Err(m) => {
@@ -622,6 +670,14 @@ impl<'a> Ctx<'a> {
             fragment_names_in_selection_set(ss, |n| frags.get(n).copied()).into_iter().map(|s| s.to_string()).collect()
         }).collect();
         // statistics
+        for d in &doc.definitions {
+            if let ExecutableDefinition::OperationDefinition(o) = d {
+                match o.name {
+                    None => self.bump("operation_names:anonymous"),
+                    Some(n) => if nitrogql_utils::capitalize(n.name) != n.name { self.bump("operation_names:changed_by_capitalize") } else { self.bump("operation_names:unchanged_by_capitalize") },
+                }
+            }
+        }
         let n_spreads = text.matches("...F").count() + text.matches("...Missing").count();
         let max_closure = names.iter().map(|n| n.len()).max().unwrap_or(0);
         self.add("defs_total", doc.definitions.len() as u64);
@@ -651,7 +707,7 @@ impl<'a> Ctx<'a> {
                         // the document as this harness parsed / resolved it (the text around them may differ: the loader
                         // parses every file with file index 0, so imported fragments are exported there -- C14's subject)
                         if let Ok(ops) = &js_ops { if json_chunks(ops) != js_text_chunks(&text) {
-                            self.direct_failures.push(json!({"what": "the runtime documents in the loader's emit_js text differ from those print_js_for_operation_document writes for the same sources", "classes": [], "document": text.chars().take(3000).collect::<String>()}));
+                            self.direct_failure(json!({"what": "the runtime documents in the loader's emit_js text differ from those print_js_for_operation_document writes for the same sources", "classes": [], "document": text.chars().take(3000).collect::<String>()}));
                         } }
                         let chunks = js_text_chunks(&text);
                         loader_descr = json!({"ok": chunks});
@@ -738,7 +794,8 @@ fn main() {
         ("self", "fragment A on Query { a { ...A } }\n"),
         ("diamond", "query Q { ...A ...B }\nfragment D on Query { x }\nfragment B on Query { ...D id }\nfragment A on Query { ...D x }\nfragment Unused on Query { ...A }\n"),
         ("dup-frag", "query Q { ...A }\nfragment A on Query { x }\nfragment A on Query { id ...B }\nfragment B on Query { x }\n"),
-        ("vardef", "query Q($a: Int = 3 @tag(name: \"v\"), $b: [In!]! = [{i: 1, l: []}], $c: Boolean! = true) { y(i: {i: $a, l: $b}, b: $c) }\n"),
+        ("lower-case-names", "query getUser { x ...A }\nmutation user_by_id { m { x } }\nsubscription _s1 { s { x } }\nfragment A on Query { id }\n"),
+        ("vardef", "query q($a: Int = 3 @tag(name: \"v\"), $b: [In!]! = [{i: 1, l: []}], $c: Boolean! = true) { y(i: {i: $a, l: $b}, b: $c) }\n"),
         ("values", "{ y(s: \"q\\\"\\\\\\/\\b\\f\\n\\r\\t\\u0001\\u001f\\u007f/😀\\u{1F600}\", f: -1.0E-2, l: [1, null], e: RED, b: false, id: null, ll: [[\"\"\"b\n l\"\"\"]], any: {kind: \"Name\", __proto__: [$v]}) }\n"),
         ("inline", "query { ... on Query @include(if: true) { x } ... @skip(if: false) { id } n { ... on Query { x } } }\n"),
     ];
@@ -761,7 +818,9 @@ fn main() {
         let ts = to_type_system(tsdoc);
         for _ in 0..per_schema {
             let cfg = DocCfg { coercions: rng.chance(1, 2), shorthand: rng.chance(1, 3), ..DocCfg::default() };
-            let d = gen_doc(&mut rng, &s, &cfg);
+            let mut d = gen_doc(&mut rng, &s, &cfg);
+            let n_named = d.ops.iter().filter(|o| o.name.is_some()).count();
+            for (i, o) in d.ops.iter_mut().enumerate() { if o.name.is_some() { o.name = Some(op_name(&mut rng, i, n_named > 1)); } }
             let text = leak(d.render());
             match catch(|| load_operation(text)) {
                 Ok(Ok(doc)) => {
@@ -844,7 +903,7 @@ fn main() {
         let k = rng.range(1, cfg.n_frags);
         let imported: Vec<String> = (0..k).map(|i| format!("F{i}")).collect();
         let mut main_text = if wildcard { "#import * from \"./lib.graphql\"\n".to_string() } else { format!("#import {} from \"./lib.graphql\"\n", imported.join(", ")) };
-        let _ = writeln!(main_text, "query Main {{ x {} a {{ ...L }} }}", imported.iter().map(|n| format!("...{n} ")).collect::<String>());
+        let _ = writeln!(main_text, "query mainQuery_1 {{ x {} a {{ ...L }} }}", imported.iter().map(|n| format!("...{n} ")).collect::<String>());
         let _ = writeln!(main_text, "fragment L on Query {{ id ...{} }}", imported[rng.below(imported.len())]);
         let (lib_text, main_text) = (leak(lib_text), leak(main_text));
         let (Some(lib), Some(main)) = (parse_file(lib_text, 1), parse_file(main_text, 0)) else { cx.bump("unparsable_generated_text"); continue; };
